@@ -17,13 +17,13 @@ RULE = ('random operation sequences of length <= 8 over {copy, neg, +, -, [] (in
         'sequence has >= 2 steps or the tensor >= 2 entries')
 MIN_NONTRIVIAL = {'quick': 800, 'thorough': 20000}
 REQUIRED_COUNTERS = ['oracle:step', 'oracle:getitem', 'oracle:compress', 'oracle:hosvd', 'oracle:aca', 'oracle:greedy_history',
-                     'oracle:generator', 'oracle:operator', 'oracle:modek']
+                     'oracle:generator', 'oracle:operator', 'oracle:modek', 'oracle:greedy_rank_limit']
 VARIANTS = {'quick': ['plain'], 'thorough': ['plain', 'asan']}
 WORKERS_SAN = 8
 ASSUMPTIONS = ['dense numpy arrays are the executable model', 'numpy.random is seeded per case because aca/als draw random restarts',
                'index expressions use at most one index list (numpy and outer-product semantics coincide there)']
 
-KINDS = ['seq', 'seq', 'seq', 'seq', 'operator', 'compress', 'hosvd', 'aca', 'greedy', 'generator', 'modek']
+KINDS = ['seq', 'seq', 'seq', 'seq', 'operator', 'compress', 'hosvd', 'aca', 'greedy', 'generator', 'modek', 'greedy_tucker']
 
 def cases(tier, seed):
     variant = os.environ.get('VERIF_VARIANT', 'plain')
@@ -130,7 +130,7 @@ def run_case(rec, case):
     rng = rng_for('C18', case['seed'], case['idx'])
     np.random.seed(int(rng.integers(0, 2 ** 31)))
     {'seq': _seq, 'operator': _operator, 'compress': _compress, 'hosvd': _hosvd, 'aca': _aca, 'greedy': _greedy,
-     'generator': _generator, 'modek': _modek}[case['kind']](rec, case, rng)
+     'generator': _generator, 'modek': _modek, 'greedy_tucker': _greedy_tucker}[case['kind']](rec, case, rng)
 
 def _modek(rec, case, rng):
     """Mode-k products and apply_tprod of full tensors with dense / sparse / LinearOperator factors against the definition
@@ -457,6 +457,49 @@ def _greedy(rec, case, rng):
         rec.violation(dict(sig, oracle='ends below tol or at the rank limit'), c, {'errors': errs, 'R': R, 'tol': tol})
     true = float(np.linalg.norm((tensor.asarray(X) - A).ravel()))
     rec.check_close('greedy_reported_error', abs(true - errs[-1]), 1e-8 * (np.linalg.norm(A.ravel()) + 1), dict(sig, oracle='reported error = actual error'), c)
+    _rank_limit(rec, c, sig, which, X, A, R, errs, tol)
+
+def _rank_limit(rec, c, sig, which, X, A, R, errs, tol):
+    """A run that stops above the tolerance has really reached the rank limit: every basis of the Tucker approximation has
+    min(R, rank of the mode-j unfolding) columns (each iteration adds one direction to every basis that is not complete yet)."""
+    if which != 'gta' or errs[-1] < tol: return
+    rec.count('oracle:greedy_rank_limit')
+    Us = getattr(X, 'Us', None)
+    if Us is None: return
+    for j, U in enumerate(Us):
+        rj = int(np.linalg.matrix_rank(np.moveaxis(A, j, 0).reshape(A.shape[j], -1)))
+        need = min(R, rj)
+        if U.shape[1] < need:
+            rec.violation(dict(sig, oracle='a greedy run that ends above the tolerance has reached the rank limit in every mode'), c,
+                          {'mode': j, 'columns': int(U.shape[1]), 'needed': need, 'errors': [float(e) for e in errs][-4:], 'tol': tol}); return
+
+def _greedy_tucker(rec, case, rng):
+    """gta on tensors with prescribed multilinear rank, a short axis ahead of longer ones and R beyond the short axis."""
+    from pyiga import tensor
+    from verif.api import guarded
+    d = 3
+    shape = (int(rng.integers(2, 4)), int(rng.integers(4, 8)), int(rng.integers(4, 8)))
+    shape = tuple(int(x) for x in rng.permutation(shape)) if rng.random() < 0.4 else shape
+    ranks = tuple(int(rng.integers(1, n + 1)) if n <= 3 else int(rng.integers(2, 4)) for n in shape)
+    core = rng.standard_normal(ranks)
+    Us = [np.linalg.qr(rng.standard_normal((n, r)))[0] for n, r in zip(shape, ranks)]
+    A = np.einsum('abc,ia,jb,kc->ijk', core, *Us)
+    R = int(max(ranks) + rng.integers(0, 3)); tol = 10.0 ** rng.uniform(-9, -6)
+    c = dict(case, which='gta', shape=list(shape), multilinear_rank=list(ranks), R=R, tol=tol)
+    rec.case(c, nontrivial=True)
+    sig = {'kind': 'greedy', 'route': 'gta', 'data': 'prescribed multilinear rank'}
+    ok, r_ = guarded(rec, c, sig, tensor.gta, A, R, tol=tol, rtol=1e-300, return_errors=True)
+    if not ok: return
+    X, errs = r_
+    errs = [float(e) for e in errs]
+    rec.count('oracle:greedy_history')
+    if any(b > a * (1 + 1e-8) + 1e-12 for a, b in zip(errs[:-1], errs[1:])):
+        rec.violation(dict(sig, oracle='error history non-increasing'), c, {'errors': errs})
+    if not (errs[-1] < tol or len(errs) >= R):
+        rec.violation(dict(sig, oracle='ends below tol or at the rank limit'), c, {'errors': errs, 'R': R, 'tol': tol})
+    true = float(np.linalg.norm((tensor.asarray(X) - A).ravel()))
+    rec.check_close('greedy_reported_error', abs(true - errs[-1]), 1e-8 * (np.linalg.norm(A.ravel()) + 1), dict(sig, oracle='reported error = actual error'), c)
+    _rank_limit(rec, c, sig, 'gta', X, A, R, errs, tol)
 
 def _generator(rec, case, rng):
     from pyiga import lowrank
